@@ -138,6 +138,23 @@ func genClientLib(prop string, seed uint64, tier string) *Scenario {
 			}
 		}
 	}
+	if lh := ssched.Sub(seed, "longhold"); body.Primitive != "event" && len(body.CutBytes) == 0 && lh.Intn(8) == 0 {
+		// long-hold profile (drawn from a generator of its own): one worker keeps what it acquired for
+		// 40-80 s, long enough for the server to move the hold to its long-term tables, while the
+		// others keep arriving
+		w0 := &body.Workers[0]
+		w0.StartMs, w0.Rounds, w0.HoldMs, w0.GapMs = lh.Intn(200), 1, []int{38000 + lh.Intn(42000)}, []int{0}
+		for g := 1; g < len(body.Workers); g++ {
+			wk := &body.Workers[g]
+			wk.StartMs = lh.Intn(90000)
+			for i := range wk.GapMs {
+				wk.GapMs[i] = lh.Intn(5000)
+			}
+		}
+		if body.TimeoutS > 3 {
+			body.TimeoutS = lh.Intn(4)
+		}
+	}
 	for g := range body.Workers {
 		wk := &body.Workers[g]
 		for len(wk.HoldMs) < wk.Rounds {
